@@ -234,6 +234,36 @@ theorem manager_pointer_refines (full : File → Bool) (hfresh : ∀ f : File, f
       · rw [(h3 hne).2]; subst h
         simp only [LogStore.savePointer, absNext_snoc]
 
+/-- **snapshot installation** (the log part of `finalize_snapshot_installation`, C08): for EVERY catalogue of files the
+node held - no hypothesis on it at all: empty, ending below the snapshot (F28), reaching beyond it (F29), holding
+pointers of its own - the log is afterwards the list specification's: the snapshot's pointer alone, and the entry after
+the snapshot is the one accepted next; the catalogue invariant is re-established -/
+theorem manager_install_refines (full : File → Bool) (hfresh : ∀ f : File, f.recs = [] → full f = false)
+    (m : Mgr) (s : LogStore.Store) (i t : Nat) :
+    Chain (install full m i t).files ∧
+    absEnts (install full m i t).files = (LogStore.install s i t).ents ∧
+    absNext (install full m i t).files = (LogStore.install s i t).next ∧
+    (install full m i t).prePtr = m.prePtr := by
+  have h := writeOne_spec full hfresh [] trivial (ptrEnt i t)
+  simp only [absNext, List.getLast?_nil, Option.map_none, true_or, if_true] at h
+  obtain ⟨hc, -, he, hn⟩ := h
+  refine ⟨hc, ?_, ?_, rfl⟩
+  · simpa [LogManager.install, LogStore.install, absEnts, ptrEnt] using he
+  · simpa [LogManager.install, LogStore.install, ptrEnt, absNext] using hn
+
+/-- ... and the node is appendable right behind the snapshot, whatever it held: the leader's next entry is accepted and
+is the log's second entry -/
+theorem append_after_install_accepted (full : File → Bool) (hfresh : ∀ f : File, f.recs = [] → full f = false)
+    (m : Mgr) (i t : Nat) (e : Ent) (he : e.index = i + 1) :
+    (writeOne full (install full m i t).files e 2).2 = .ok ∧
+    absEnts (writeOne full (install full m i t).files e 2).1 = [ptrEnt i t, e] := by
+  obtain ⟨hc, hents, hnext, -⟩ := manager_install_refines full hfresh m {} i t
+  have h := writeOne_spec full hfresh (install full m i t).files hc e
+  rw [hnext] at h
+  simp only [LogStore.install, he, or_true, if_true] at h
+  refine ⟨h.2.1, ?_⟩
+  rw [h.2.2.1, hents]; rfl
+
 /-- non-vacuity: a log in two files, cut in the first one: the second file goes, the first is the open log again and
 takes the next append at the cut -/
 def full2 : File → Bool := fun f => decide (f.recs.length ≥ 2)
